@@ -350,3 +350,19 @@ func inStrings(l []string, n int, s string) bool {
 //@ func (ce *commandEncoder) flush()
 //@   props C12:callsite
 //@   callsite Client.closeWithError(c *Client, err error) requires !imapwire.IsLiteralCancelled(err)
+
+// A body section may be NIL, in which case the item carries no literal: the
+// accessors that read or discard it must not hand a nil reader to io (a nil
+// interface method call panics).
+//
+//@ func (buf *FetchMessageBuffer) populateItemData(item FetchItemData) (err error)
+//@   props C11:callsite
+//@   callsite io.ReadAll(r io.Reader) requires r != nil
+
+//@ func (item FetchItemDataBodySection) discard()
+//@   props C11:callsite
+//@   callsite io.Copy(dst io.Writer, src io.Reader) requires src != nil
+
+//@ func (item FetchItemDataBinarySection) discard()
+//@   props C11:callsite
+//@   callsite io.Copy(dst io.Writer, src io.Reader) requires src != nil
